@@ -111,8 +111,16 @@ def main(tier):
         tie["evaluations"] += 2
         if ra["outcome"] != "ok" or rb["outcome"] != "ok":
             if ra["outcome"] != rb["outcome"]:
-                tie["broken"].append("harness: adding other traits made the definition %s (%s)" % (rb["outcome"], rb.get("message", "")[:150]))
-                tie["broken_details"].append({"rust_source": b})
+                mb = model.get(2 * i + 1)
+                if ra["outcome"] == "ok" and mb is not None and mb[0] == "ok":
+                    # the model - the behaviour every other check validates - accepts the larger trait set: the refusal is the
+                    # implementation's, caused by the other traits' presence or attributes
+                    tie["failing"].append({"what": "a definition accepted with the trait alone is refused once other traits (%s) are educed next to it" % ", ".join(noise),
+                                           "rust_source": a, "with_other_traits": b, "observed": rb.get("message", rb["outcome"])[:300],
+                                           "expected_spec": "accepted, every trait's impl as when it is educed alone"})
+                else:
+                    tie["broken"].append("harness: adding other traits made the definition %s (%s)" % (rb["outcome"], rb.get("message", "")[:150]))
+                    tie["broken_details"].append({"rust_source": b})
             continue
         ia = {attr.trait_name(it.get("trait")) if it.get("trait") else "new": it["tokens"] for it in ra["items"] if "tokens" in it}
         ib = {attr.trait_name(it.get("trait")) if it.get("trait") else "new": it["tokens"] for it in rb["items"] if "tokens" in it}
